@@ -216,3 +216,12 @@ NEUTRALS = [
     M("weights regrouped", _S, "return (self.beta - beta) * self.log_q + (beta - self.beta) * (\n            self.log_likelihood + self.log_prior\n        )",
       "return (beta - self.beta) * (self.log_likelihood + self.log_prior - self.log_q)"),
 ]
+
+# functions the property is anchored in (auto-mutant sweep of the thorough tier)
+ANCHORS = [
+    'aspire.samplers.smc.base:SMCSampler.determine_beta',
+    'aspire.samplers.smc.base:SMCSampler.current_target_efficiency',
+    'aspire.samples:SMCSamples.unnormalized_log_weights',
+    'aspire.samples:SMCSamples.log_weights',
+    'aspire.utils:effective_sample_size',
+]
